@@ -297,7 +297,9 @@ theorem provider_nodes_are_oov (cfg : SimpleCfg) (rcfg : RegexCfg) (buf : Buf) (
       · split at h
         · cases h; simp
         · split at h
-          · cases h
+          · split at h
+            · cases h; simp
+            · cases h
           · split at h
             · cases h; simp
             · cases h; simp [regexNode]
